@@ -422,7 +422,7 @@ def _ki_handlers(ctx: Ctx, run: FuncInfo):
     return None
 
 
-@rule('C14.HANDLER', ['C14'], min_instances=5)
+@rule('C14.HANDLER', ['C14', 'C11'], min_instances=5)
 def ki_handler(ctx: Ctx):
     """First interrupt: cancel, then drain by waiting, never submitting, then re-raise it.  Second
     interrupt: stop, one final wait, re-raise.  The normal return is only in the else of the outer try."""
@@ -507,8 +507,9 @@ def ki_handler(ctx: Ctx):
     sb = calls_matching(h1, subs)
     reach_sub = []
     for c in calls_in(h1):
-        fns = [ctx.P.funcs[q] for q in ctx.P.resolve_call(c, run) if q in ctx.P.funcs and q not in {cl.fn.qualname}]
-        clo = {f.qualname for f in ctx.P.closure(fns, include_nested=False)} if fns else set()
+        fns = [ctx.P.funcs[q] for q in ctx.P.resolve_call(c, run) if q in ctx.P.funcs]
+        # (the outcome consumer is the body of the drain: what it calls - directly or through local helpers - counts)
+        clo = {f.qualname for f in ctx.P.closure(fns, include_nested=True)} if fns else set()
         if clo & subs:
             reach_sub.append(c)
     yield ctx.ob('C14.HANDLER', not sb and not reach_sub, run, (sb + reach_sub)[0] if (sb + reach_sub) else h1, 'nothing is submitted in the handler',
